@@ -5,6 +5,9 @@ from . import extract, facts
 from .facts import MissingAnchor
 
 VERIF = extract.VERIF
+# Runs of the machinery's own self-tests analyse a scratch worktree (ZK_REPO=/var/tmp/...): their evidence and replay files go to a
+# scratch directory so that /verif/evidence always describes /repo (the tree the registered commands analyse).
+SCRATCH = os.path.join(extract.CACHE, "scratch") if os.environ.get("ZK_REPO") and os.path.realpath(os.environ["ZK_REPO"]) != "/repo" else None
 PROPS = ["C%02d" % i for i in range(1, 21)]
 
 
@@ -117,7 +120,7 @@ def run_property(pid, tier, replay=None):
     known, fixed = load_known()
     fails = [r for r in ctx.results if r.status == "fail"]
     oks = [r for r in ctx.results if r.status == "ok"]
-    out_dir = os.path.join(VERIF, "out", pid)
+    out_dir = os.path.join(SCRATCH or VERIF, "out", pid)
     os.makedirs(out_dir, exist_ok=True)
     violations = []
     known_hits = []
@@ -174,10 +177,10 @@ def run_property(pid, tier, replay=None):
         "wall_s": round(time.time() - t0, 3),
         "violations": len(violations),
     }
-    os.makedirs(os.path.join(VERIF, "evidence"), exist_ok=True)
-    tmp = os.path.join(VERIF, "evidence", "%s.json.tmp" % pid)
+    os.makedirs(os.path.join(SCRATCH or VERIF, "evidence"), exist_ok=True)
+    tmp = os.path.join(SCRATCH or VERIF, "evidence", "%s.json.tmp" % pid)
     json.dump(ev, open(tmp, "w"), indent=1, default=str)
-    os.replace(tmp, os.path.join(VERIF, "evidence", "%s.json" % pid))
+    os.replace(tmp, os.path.join(SCRATCH or VERIF, "evidence", "%s.json" % pid))
     print("%s: %d rule instances, %d ok, %d known findings, %d violations (%.1fs)" % (
         pid, len(ctx.results), len(oks), len(known_hits), len(violations), time.time() - t0))
     return 1 if violations else 0
